@@ -222,7 +222,7 @@ func getNetmapNodes(ctx) (r)
 func filterNetmap(ctx) (r)
   pure
   ensures [C06] len(r) == filtLen(store, cnt(store, "candidate")) && !isnil(r)
-  ensures [C06] forall t Int {r[t]} :: 0 <= t && t < len(r) ==> r[t] == filtAt(store, cnt(store, "candidate"), t)
+  ensures [C06] forall t Int {r[t]} {filtAt(store, cnt(store, "candidate"), t)} :: 0 <= t && t < len(r) ==> r[t] == filtAt(store, cnt(store, "candidate"), t)
   loop 0
     invariant len(result) == filtLen(store, $i) && !isnil(result) && $i <= len(netmap)
     invariant forall t Int {result[t]} :: 0 <= t && t < len(result) ==> result[t] == filtAt(store, $i, t)
